@@ -14,7 +14,8 @@ ENV = dict(os.environ, GOFLAGS="-mod=mod", GOPROXY="off", GOSUMDB="off", GOTOOLC
 def one(d):
     name = os.path.basename(d)
     meta = json.load(open(d + "/meta.json"))
-    pid = meta["property"]
+    pids = meta.get("caught_by") or [meta["property"]]
+    pid = pids[0]
     wt = f"/tmp/reg-{name}"
     out = f"/tmp/reg-{name}.out"
     subprocess.run(f"git -C /repo worktree remove --force {wt}", shell=True, capture_output=True)
